@@ -21,6 +21,7 @@ import Pandora.Proofs.C13Funcs
 import Pandora.Proofs.C13Multi
 import Pandora.Proofs.C13Jsonline
 import Pandora.Proofs.C13Grpc
+import Pandora.Proofs.C13Cfg
 import Pandora.Bridge.C13
 
 namespace Pandora.Props.C13
@@ -1240,5 +1241,273 @@ example : Gen.C13Src.startBody true (fun _ => true) none ⟨⟨[115], [115], [11
     some (some ⟨GFields.zero, 0, true⟩, 4) := by decide
 
 example : Gen.C13Src.grpcPassEnd 0 0 0 3 false = 0 := by decide
+
+/-! ## round 4: the `chosen_cases` filter of the http provider, the `type` of a plugin, the separator of a csv source -/
+
+/-- "never makes a provider loop forever / empty data sources are rejected", for the provider variant `guarded`
+(`true`: `runFullScan` tests `ammoNum == 0 && passes.PassNum() > 0` in front of `Scan` and the decoder answers the
+`passCounter` assertion): a filter that lets no entry of the file through - wrong tags, a typo - ends the run after ONE pass
+with "no ammo" (or with the file's own error), whatever `passes` and `limit` are, zero included, with and without preload -/
+def C13_terminates_http_chosen_nothing_statement (guarded : Bool) : Prop :=
+  ∀ (one : Run) (chosen : Bytes → Bool) (pre : Bool) (passes limit : Nat),
+    (∀ e ∈ one.entries, chosen e.tag = false) →
+      ccRunAll guarded one chosen pre passes limit =
+        if one.end_ ≠ .ok then ⟨[], one.end_, one.rest⟩ else ⟨[], .err "noammo", []⟩
+
+theorem C13_terminates_http_chosen_nothing : C13_terminates_http_chosen_nothing_statement true := by
+  intro one chosen pre passes limit hnone
+  have hsel : selOf chosen one.entries = [] := by
+    unfold selOf
+    rw [List.filter_eq_nil_iff]
+    intro e he
+    simp [hnone e he]
+  unfold ccRunAll
+  simp only [hsel, List.length_nil]
+  cases pre with
+  | true =>
+    simp only [if_true]
+  | false =>
+    simp only [Bool.false_eq_true, if_false]
+    unfold ccFuel
+    exact ccMulti_nothing one passes limit _ 0 0
+
+/-- without the test (or with a decoder that no longer answers the assertion, which still compiles) the statement is false:
+a one-entry file, a filter that refuses its tag, no limits - every amount of fuel runs out -/
+theorem C13_terminates_http_chosen_nothing_counterexample : ¬ C13_terminates_http_chosen_nothing_statement false := by
+  intro h
+  have h1 := h ⟨[⟨[116], [47], []⟩], .ok, []⟩ (fun _ => false) false 0 0 (by simp)
+  have h2 := ccMulti_unguarded_spins ⟨[116], [47], []⟩ [] 0 (ccFuel 0 0) 0 0
+  have h3 : (ccRunAll false ⟨[⟨[116], [47], []⟩], .ok, []⟩ (fun _ => false) false 0 0).end_ = .fuel := by
+    unfold ccRunAll
+    simpa [selOf] using h2
+  rw [h1] at h3
+  simp at h3
+
+/-- … and the same spin with an ammo limit: the limit counts DELIVERED ammo, so it is never reached -/
+theorem C13_unrepaired_http_chosen_spins (limit fuel : Nat) :
+    (ccMulti false ⟨[⟨[116], [47], []⟩], .ok, []⟩ [] 0 limit fuel 0 0 0).end_ = .fuel :=
+  ccMulti_unguarded_spins _ _ limit fuel 0 0
+
+/-- with a limit or a pass limit the provider with a filter ends, whatever the filter lets through -/
+theorem C13_terminates_http_chosen (one : Run) (chosen : Bytes → Bool) (pre : Bool) (passes limit : Nat)
+    (hone : one.end_ ≠ .fuel) (h : limit ≠ 0 ∨ passes ≠ 0) : (ccRunAll true one chosen pre passes limit).end_ ≠ .fuel := by
+  unfold ccRunAll
+  cases pre with
+  | true =>
+    simp only [if_true]
+    split
+    · exact hone
+    · split
+      · simp
+      · exact C13_terminates_http_passes ⟨selOf chosen one.entries, .ok, []⟩ passes limit (by simp) h
+  | false =>
+    simp only [Bool.false_eq_true, if_false]
+    unfold ccFuel
+    by_cases hl : limit ≠ 0
+    · rw [if_pos hl]
+      exact ccMulti_no_fuel_limit one _ passes limit hone hl _ 0 0 0 (by simp) (by omega)
+    · have hl0 : limit = 0 := by omega
+      have hp : passes ≠ 0 := by rcases h with h | h; exact absurd hl0 h; exact h
+      rw [if_neg hl]
+      exact ccMulti_no_fuel_passes true one _ passes limit hone hp _ 0 0 0 (by omega)
+
+/-- it never ends in a panic or a fatal error when a single pass does not -/
+theorem C13_no_panic_http_chosen (guarded : Bool) (one : Run) (chosen : Bytes → Bool) (pre : Bool) (passes limit : Nat)
+    (hone : End.clean one.end_) :
+    (ccRunAll guarded one chosen pre passes limit).end_ ≠ .panic ∧ (ccRunAll guarded one chosen pre passes limit).end_ ≠ .fatal := by
+  have hclean : ∀ e : End, (e = .ok ∨ e = one.end_ ∨ e = .fuel ∨ e = .err "noammo") → e ≠ .panic ∧ e ≠ .fatal := by
+    intro e he
+    rcases he with h | h | h | h
+    · rw [h]; simp
+    · rw [h]; cases he : one.end_ <;> rw [he] at hone <;> simp [End.clean] at hone ⊢
+    · rw [h]; simp
+    · rw [h]; simp
+  unfold ccRunAll
+  cases pre with
+  | true =>
+    simp only [if_true]
+    split
+    · exact hclean _ (.inr (.inl rfl))
+    · split
+      · simp
+      · unfold multiRunAll
+        rcases multiRun_end_cases ⟨selOf chosen one.entries, .ok, []⟩ passes limit ((if limit ≠ 0 then limit else passes) + 1) 0 0
+          with h | h | h | h <;> rw [h] <;> simp
+  | false =>
+    simp only [Bool.false_eq_true, if_false]
+    exact hclean _ (ccMulti_end_cases guarded one _ passes limit _ 0 0 0)
+
+/-- "never alters how well-formed entries are delivered": with a filter the provider hands out entries of the file that
+pass the filter, and nothing else -/
+theorem C13_http_chosen_delivers_chosen (guarded : Bool) (one : Run) (chosen : Bytes → Bool) (pre : Bool) (passes limit : Nat) :
+    ∀ e ∈ (ccRunAll guarded one chosen pre passes limit).entries, e ∈ one.entries ∧ chosen e.tag = true := by
+  intro e he
+  have hsel : ∀ e ∈ selOf chosen one.entries, e ∈ one.entries ∧ chosen e.tag = true := by
+    intro e he
+    unfold selOf at he
+    simpa [List.mem_filter] using he
+  unfold ccRunAll at he
+  cases pre with
+  | true =>
+    simp only [if_true] at he
+    split at he
+    · simp at he
+    · split at he
+      · simp at he
+      · exact hsel e (multiRun_mem ⟨selOf chosen one.entries, .ok, []⟩ passes limit _ 0 0 e he)
+  | false =>
+    simp only [Bool.false_eq_true, if_false] at he
+    exact hsel e (ccMulti_mem guarded one _ passes limit _ 0 0 0 e he)
+
+/-- a filter that lets everything through is the provider of the earlier theorems (`multiRun`), entry by entry: what was
+proved about it (`C13_prefix_preserved`, `C13_rejected_http_no_ammo`, …) is about the provider with its filter too -/
+theorem C13_http_chosen_all (one : Run) (passes limit fuel : Nat) :
+    (ccMulti true one one.entries passes limit fuel 0 0 0).entries = (multiRun one passes limit fuel 0 0).entries :=
+  (ccMulti_all one passes limit fuel 0 0).1
+
+/-- a jsonline file that is one JSON array none of whose elements passes the filter: "no ammo" after one pass over the
+array, whatever `passes` and `limit` are; `scanAmmos` never panics under the filter -/
+theorem C13_terminates_jsonline_array_chosen_nothing (chosen : Bytes → Bool) (elems : List Bytes) (pre : Bool) (passes limit : Nat)
+    (hnone : ∀ t ∈ elems, chosen t = false) :
+    jlArrayRunCC true chosen elems pre passes limit = ⟨[], .err "noammo", []⟩ := by
+  unfold jlArrayRunCC
+  cases pre with
+  | true =>
+    have : elems.filter chosen = [] := by
+      rw [List.filter_eq_nil_iff]
+      intro t ht
+      simp [hnone t ht]
+    simp [this]
+  | false =>
+    simp only [Bool.false_eq_true, if_false]
+    rcases Nat.eq_zero_or_pos elems.length with h0 | hpos
+    · have : elems = [] := List.eq_nil_of_length_eq_zero h0
+      subst this
+      unfold jlArrayFuelCC jlArrayLoopCC
+      simp [scanAmmos]
+    · have := jlArrayLoopCC_nothing chosen elems passes limit hnone (jlArrayFuelCC elems.length passes limit) ⟨0, 0⟩ []
+        (JlArr.init_Inv _ hpos) (by unfold jlArrayFuelCC; omega) (by intro _; unfold jlArrayFuelCC; simp; omega)
+      simpa using this
+
+theorem C13_no_panic_jsonline_chosen (guarded : Bool) (src : JSrc) (chosen : Bytes → Bool) (pre : Bool) (passes limit : Nat) :
+    (jsonlineRunCC guarded src chosen pre passes limit).end_ ≠ .panic ∧
+    (jsonlineRunCC guarded src chosen pre passes limit).end_ ≠ .fatal := by
+  cases src with
+  | refused => simp [jsonlineRunCC, ctorErr]
+  | array elems tr =>
+    cases elems with
+    | none => simp [jsonlineRunCC, ctorErr]
+    | some es =>
+      simp only [jsonlineRunCC]
+      split
+      · simp [ctorErr]
+      · unfold jlArrayRunCC
+        cases pre with
+        | true =>
+          simp only [if_true]
+          split
+          · simp
+          · unfold multiRunAll
+            rcases multiRun_end_cases ⟨(es.filter chosen).map fun t => (⟨t, [], []⟩ : Entry), .ok, []⟩ passes limit
+              ((if limit ≠ 0 then limit else passes) + 1) 0 0 with h | h | h | h <;> rw [h] <;> simp
+        | false =>
+          simp only [Bool.false_eq_true, if_false]
+          exact jlArrayLoopCC_no_panic guarded chosen es passes limit _ _ _ _
+  | stream items =>
+    simp only [jsonlineRunCC]
+    exact C13_no_panic_http_chosen guarded (jlItems items) chosen pre passes limit (jlItems_end_clean items)
+
+/-- the array loop with a filter that refuses nothing is the loop of `C13_no_panic_jsonline` / `C13_terminates_jsonline` -/
+theorem C13_jsonline_array_chosen_all (elems : List Bytes) (passes limit fuel : Nat) (s : JlArr) (n : Nat) (acc : List Entry) :
+    jlArrayLoopCC true (fun _ => true) elems passes limit fuel s n acc = jlArrayLoop elems passes limit fuel s n acc :=
+  jlArrayLoopCC_all elems passes limit fuel s n acc
+
+/-- about the regenerated code: in front of every `Scan`, after a complete pass (`PassNum() ≥ 1`) that delivered nothing,
+`runFullScan` as it stands returns `ErrNoAmmo` - for every file decoder (each answers the `passCounter` assertion, from the
+types), every limit; the limit counts delivered ammo only; and a pass limit reached with nothing delivered is "no ammo" -/
+theorem C13_terminates_http_chosen_source (limit passNum : Nat) (hp : 1 ≤ passNum) :
+    (∀ d ∈ Gen.C13Src.passCounterDecoders, Gen.C13Src.fullScanHead limit 0 d.2 passNum = 2) ∧
+    Gen.C13Src.fullScanCountsDelivered = true ∧
+    (∀ isAmmoLimit, Gen.C13Src.fullScanAfterErr (0 : Nat) true isAmmoLimit = 2) := by
+  refine ⟨?_, Bridge.C13.fullScanCounts_bridge, ?_⟩
+  · intro d hd
+    have hall := Bridge.C13.passCounter_bridge.1
+    rw [List.all_eq_true] at hall
+    have hd2 : d.2 = true := hall d hd
+    rw [hd2]
+    have hb := Bridge.C13.fullScanHead_bridge limit 0 passNum true
+    simp only [Int.natCast_zero] at hb
+    rw [hb]
+    unfold Bridge.C13.fullScanHeadModel
+    have h1 : ¬ (limit ≠ 0 ∧ 0 ≥ limit) := by omega
+    rw [if_neg h1, if_pos ⟨rfl, rfl, by omega⟩]
+  · intro b
+    rw [Bridge.C13.fullScanAfterErr_bridge]
+    simp
+
+/-- "a malformed configuration value is rejected with an error, never a panic": decoding a plugin config, for EVERY shape
+of its `type` key(s) (absent, twice, not a string, any string - empty, blank, huge) and every registry, gives a value or an
+error, as long as the string `parseConf` tests for emptiness is empty whenever the name it hands on is -/
+def C13_no_panic_plugin_type_statement (tested returned : Bytes → Bytes) : Prop :=
+  ∀ (registered : Bytes → Bool) (vals : List TypeVal), (pluginFromConf tested returned registered vals).returns = true
+
+theorem C13_no_panic_plugin_type (tested returned : Bytes → Bytes) (h : ∀ s, returned s = [] → tested s = []) :
+    C13_no_panic_plugin_type_statement tested returned :=
+  fun registered vals => pluginFromConf_returns tested returned registered vals h
+
+/-- a name trimmed AFTER the emptiness test: the statement is false - a `type` of one space passes the test, becomes the
+empty name and reaches the registry's `expect(name != "")` -/
+theorem C13_no_panic_plugin_type_counterexample : ¬ C13_no_panic_plugin_type_statement id trimSpace := by
+  intro h
+  have := h (fun _ => true) [.str [32]]
+  revert this
+  decide
+
+/-- a `type` that is empty or nothing but white space is an error (no plugin has a blank name) -/
+theorem C13_rejected_blank_plugin_type (registered : Bytes → Bool) (s : Bytes) (hs : trimSpace s = [])
+    (hreg : ∀ n, registered n = true → trimSpace n ≠ []) : ∃ c, pluginFromConf id id registered [.str s] = .err c :=
+  pluginFromConf_blank registered s hs hreg
+
+/-- … about `parseConf` as it stands (regenerated: which function of the raw value is tested, which one is handed on) -/
+theorem C13_no_panic_plugin_type_source :
+    C13_no_panic_plugin_type_statement Gen.C13Src.pcTested Gen.C13Src.pcReturned :=
+  C13_no_panic_plugin_type _ _ Bridge.C13.parseConf_bridge
+
+/-- "scenario descriptions … never crash the process": the separator a csv variable source gives its reader is a value for
+EVERY `delimiter` string, the empty one included (`guarded`: `delimiter[0]` stands behind the test `delimiter != ""`) -/
+def C13_no_panic_csv_delimiter_statement (guarded : Bool) : Prop :=
+  ∀ delimiter : Bytes, (csvOpen guarded delimiter).returns = true
+
+theorem C13_no_panic_csv_delimiter : C13_no_panic_csv_delimiter_statement true := csvOpen_returns
+
+theorem C13_no_panic_csv_delimiter_counterexample : ¬ C13_no_panic_csv_delimiter_statement false := by
+  intro h
+  have := h []
+  revert this
+  decide
+
+/-- … about `readCsv` as it stands: wherever `delimiter[i]` is evaluated, `i` is inside the string -/
+theorem C13_no_panic_csv_delimiter_source (delimiter : Bytes) (h : Gen.C13Src.csvCommaGuard delimiter) :
+    boundC Gen.C13Src.csvCommaIndex delimiter.length = .ok () ∧
+    (∃ c, (if Gen.C13Src.csvCommaGuard delimiter then indexC delimiter Gen.C13Src.csvCommaIndex else .ok 44) = .ok c) := by
+  refine ⟨(Bridge.C13.csvComma_bridge delimiter).1 h, ?_⟩
+  rw [(Bridge.C13.csvComma_bridge delimiter).2]
+  exact csvComma_guarded delimiter
+
+/-- non-vacuity: a three-entry file, a filter that keeps the tag `u`, limit 5 without a pass limit: `u u u u u` -/
+example : (ccRunAll true ⟨[⟨[116], [47], []⟩, ⟨[117], [47], []⟩, ⟨[116], [47], []⟩], .ok, []⟩ (fun t => t == [117]) false 0 5).entries.length = 5 ∧
+    (ccRunAll true ⟨[⟨[116], [47], []⟩, ⟨[117], [47], []⟩, ⟨[116], [47], []⟩], .ok, []⟩ (fun t => t == [117]) false 0 5).end_ = .ok := by decide
+/-- … the same file with a filter that matches nothing, no limits at all, and with two passes -/
+example : ccRunAll true ⟨[⟨[116], [47], []⟩, ⟨[117], [47], []⟩], .ok, []⟩ (fun t => t == [120]) false 0 0 = ⟨[], .err "noammo", []⟩ ∧
+    ccRunAll true ⟨[⟨[116], [47], []⟩, ⟨[117], [47], []⟩], .ok, []⟩ (fun t => t == [120]) false 2 0 = ⟨[], .err "noammo", []⟩ := by decide
+example : jlArrayRunCC true (fun t => t == [120]) [[116], [117]] false 0 0 = ⟨[], .err "noammo", []⟩ ∧
+    (jlArrayRunCC true (fun t => t == [117]) [[116], [117]] false 0 3).entries.length = 3 := by decide
+example : Gen.C13Src.fullScanHead 0 0 true 1 = 2 ∧ Gen.C13Src.fullScanHead 3 0 true 0 = 0 ∧ Gen.C13Src.fullScanHead 3 3 true 1 = 1 := by decide
+example : pluginFromConf id id (fun n => n == [104]) [.str [104]] = .ok () ∧
+    pluginFromConf id id (fun n => n == [104]) [.str [32]] = .err "noplugin" ∧
+    pluginFromConf id id (fun n => n == [104]) [.str []] = .err "empty" ∧
+    pluginFromConf id id (fun n => n == [104]) [.str [104], .str [104]] = .err "toomany" := by decide
+example : csvOpen true [] = .ok 44 ∧ csvOpen true [59, 59] = .ok 59 ∧ csvOpen true [10] = .err "delim" := by decide
+example : Gen.C13Src.csvCommaGuard [59] := by decide
 
 end Pandora.Props.C13
